@@ -211,3 +211,134 @@ def meaning(name, stack, code=()):
     if kind == 'if_right':
         return code[0]([S[0][1]] + S[1:]) if S[0][0] == 'Right' else code[1]([S[0][1]] + S[1:])
     raise NotAMacro(name)
+
+
+# ----------------------------------------------------------------------------- the documented expansions themselves
+# A second statement of the meaning: the expansion rules printed in the macro section of the documentation, as Micheline.
+# Running them (with the reference interpreter) defines what a code body sees, e.g. MAP_CAR code = DUP ; CDR ;
+# DIP { CAR ; code } ; SWAP ; PAIR  runs `code` on  car : S  (the pair is gone), MAP_CDR code = DUP ; CDR ; code ; SWAP ;
+# CAR ; PAIR  runs it on  cdr : pair : S.
+
+def _p(prim, *args):
+    return {'prim': prim, 'args': list(args)} if args else {'prim': prim}
+
+
+_FAIL = [_p('UNIT'), _p('FAILWITH')]
+
+
+def _doc_pair(t):
+    left, right = t[1], t[2]
+    out = [] if left == 'A' else _doc_pair(left)
+    if right != 'I':
+        out = out + [_p('DIP', _doc_pair(right))]
+    return out + [_p('PAIR')]
+
+
+def _doc_unpair(t):
+    left, right = t[1], t[2]
+    out = [_p('UNPAIR')]
+    if right != 'I':
+        out.append(_p('DIP', _doc_unpair(right)))
+    if left != 'A':
+        out += _doc_unpair(left)
+    return out
+
+
+def _doc_set(path):
+    if path == 'A':
+        return [_p('CDR'), _p('SWAP'), _p('PAIR')]
+    if path == 'D':
+        return [_p('CAR'), _p('PAIR')]
+    if path[0] == 'A':
+        return [_p('DUP'), _p('DIP', [_p('CAR')] + _doc_set(path[1:])), _p('CDR'), _p('SWAP'), _p('PAIR')]
+    return [_p('DUP'), _p('DIP', [_p('CDR')] + _doc_set(path[1:])), _p('CAR'), _p('PAIR')]
+
+
+def _doc_map(path, code):
+    if path == 'A':
+        return [_p('DUP'), _p('CDR'), _p('DIP', [_p('CAR'), code]), _p('SWAP'), _p('PAIR')]
+    if path == 'D':
+        return [_p('DUP'), _p('CDR'), code, _p('SWAP'), _p('CAR'), _p('PAIR')]
+    if path[0] == 'A':
+        return [_p('DUP'), _p('DIP', [_p('CAR')] + _doc_map(path[1:], code)), _p('CDR'), _p('SWAP'), _p('PAIR')]
+    return [_p('DUP'), _p('DIP', [_p('CDR')] + _doc_map(path[1:], code)), _p('CAR'), _p('PAIR')]
+
+
+def documented_expansion(name, code=()):
+    """name x code arguments (Micheline sequences) -> the expansion printed in the documentation"""
+    kind, par, nargs = classify(name)
+    if len(code) != nargs:
+        raise NotAMacro(f'{name} takes {nargs} code argument(s)')
+    if kind == 'cmp':
+        return [_p('COMPARE'), _p(par)]
+    if kind == 'if':
+        return [_p(par), _p('IF', code[0], code[1])]
+    if kind == 'ifcmp':
+        return [_p('COMPARE'), _p(par), _p('IF', code[0], code[1])]
+    if kind == 'fail':
+        return list(_FAIL)
+    if kind == 'assert':
+        return [_p('IF', [], _FAIL)]
+    if kind == 'assert_op':
+        return [_p(par), _p('IF', [], _FAIL)]
+    if kind == 'assert_cmp':
+        return [_p('COMPARE'), _p(par), _p('IF', [], _FAIL)]
+    if kind == 'assert_none':
+        return [_p('IF_NONE', [], _FAIL)]
+    if kind == 'assert_some':
+        return [_p('IF_NONE', _FAIL, [])]
+    if kind == 'assert_left':
+        return [_p('IF_LEFT', [], _FAIL)]
+    if kind == 'assert_right':
+        return [_p('IF_LEFT', _FAIL, [])]
+    if kind == 'dip':                       # DII(rest)P code = DIP (DI(rest)P code)
+        out = code[0]
+        for _ in par:
+            out = [_p('DIP', out)]
+        return out
+    if kind == 'dup':                       # DUU(rest)P = DIP (DU(rest)P) ; SWAP
+        out = [_p('DUP')]
+        for _ in par[1:]:
+            out = [_p('DIP', out), _p('SWAP')]
+        return out
+    if kind == 'pair':
+        return _doc_pair(par)
+    if kind == 'unpair':
+        return _doc_unpair(par)
+    if kind == 'cxr':
+        return [_p('CAR' if c == 'A' else 'CDR') for c in par]
+    if kind == 'set_cxr':
+        return _doc_set(par)
+    if kind == 'map_cxr':
+        return _doc_map(par, code[0])
+    if kind == 'if_some':
+        return [_p('IF_NONE', code[1], code[0])]
+    if kind == 'if_right':
+        return [_p('IF_LEFT', code[1], code[0])]
+    raise NotAMacro(name)
+
+
+def tree_names(max_leaves):
+    """names of all pair trees with 3..max_leaves leaves (2 leaves is the instruction PAIR)"""
+    def trees(k):                           # tree strings with k leaves, without the final R
+        if k < 2:
+            return []
+        out = []
+        for l in range(1, k):
+            lefts = ['A'] if l == 1 else trees(l)
+            rights = ['I'] if k - l == 1 else trees(k - l)
+            out += ['P' + a + b for a in lefts for b in rights]
+        return out
+    return [t + 'R' for k in range(3, max_leaves + 1) for t in trees(k)]
+
+
+def path_names(max_depth):
+    import itertools
+    out = []
+    for d in range(1, max_depth + 1):
+        for p in itertools.product('AD', repeat=d):
+            p = ''.join(p)
+            if d >= 2:
+                out.append(f'C{p}R')
+            out += [f'SET_C{p}R', f'MAP_C{p}R']
+    return out
